@@ -176,13 +176,12 @@ theorem C07_ok_touches_only_named (env : Env) (s : St) (c : Cmd) (t : Target)
     (h : tgt c ≠ some t) : look (dispatch env s c).1 t = look s t := by
   rw [look_dispatch]; simp [h]
 
-/-- **C07 (error is a no-op).** For every state whose backend lists are sorted and every
-    command, an `Err` from `dispatch` leaves every entry of every map exactly as it was — no
-    partially applied field, no orphan bucket. (The sortedness hypothesis is needed because
-    `remove_backend` calls `sort()` on the cluster's list before it reports `NoChange`: on an
-    unsorted list the rejected command would have reordered it. `add_backend` keeps every list
-    sorted; the harness checks it on every real state.) -/
-theorem C07_error_is_noop (env : Env) (s : St) (c : Cmd)
+/-- **C07 (error is a no-op), any state with sorted backend lists.** An `Err` from `dispatch`
+    leaves every entry of every map exactly as it was — no partially applied field, no orphan
+    bucket. The sortedness hypothesis is needed because `remove_backend` calls `sort()` on the
+    cluster's list before it reports `NoChange`: on an unsorted list the rejected command would
+    have reordered it. It holds in every reachable state (next theorem). -/
+theorem C07_error_is_noop_of_sorted (env : Env) (s : St) (c : Cmd)
     (hs : BucketsSorted s) (herr : (dispatch env s c).2 = false) : Same (dispatch env s c).1 s := by
   intro t
   rw [look_dispatch]
@@ -191,6 +190,16 @@ theorem C07_error_is_noop (env : Env) (s : St) (c : Cmd)
     rw [dispatch_result, ht] at herr
     exact loc_err_noop env c _ (fun l hl => hs t l hl) herr
   · simp [ht]
+
+/-- **C07 (a rejected command leaves no trace), full statement.** In every state reachable from
+    the empty configuration by any command sequence (valid or not), for every command: if
+    `dispatch` returns `Err`, every entry of every map — clusters, backends, the four listener
+    maps, frontends, certificates — is exactly as before. -/
+theorem C07_error_is_noop (env : Env) (cs : List Cmd) (c : Cmd)
+    (herr : (dispatch env (run env St.init cs) c).2 = false) :
+    Same (dispatch env (run env St.init cs) c).1 (run env St.init cs) :=
+  C07_error_is_noop_of_sorted env _ c
+    (bucketsSorted_of_wf env _ (wf_run env cs St.init (wf_init env))) herr
 
 /-- a concrete environment for the examples: PEMs 0–8 are certificates named `[pem]`,
     PEM 9 parses as PEM but is not X.509, PEMs ≥ 10 do not parse. -/
@@ -398,13 +407,28 @@ example :
     look (run envEx A (diff A B)) (.httpsL 7) = look B (.httpsL 7) := by
   decide
 
+/-- the same for every pair of reachable configurations -/
+theorem C06_diff_reaches_target_reachable_partial (env : Env) (csA csB : List Cmd) (t : Target)
+    (ht : sectionOf t ≠ 6 ∧ sectionOf t ≠ 8 ∧ sectionOf t ≠ 9 ∧ sectionOf t ≠ 10) :
+    look (run env (run env St.init csA) (diff (run env St.init csA) (run env St.init csB))) t =
+      look (run env St.init csB) t :=
+  C06_diff_reaches_target_partial env _ _ (wf_run env csA St.init (wf_init env))
+    (wf_run env csB St.init (wf_init env)) t ht
+
 /-! ## C05 — a configuration survives every save / replay path unchanged -/
 
-/-- **C05 (replay round trip, proved part).** For every well-formed state — one binding per key,
+/-- **every reachable configuration is well-formed**: `dispatch` preserves `WF` (one binding per
+    key; values filed under their own key; backend lists sorted and unique on (id, address);
+    tcp/udp front lists duplicate-free; certificates keyed by their fingerprint, names resolved). -/
+theorem C05_reachable_wellformed (env : Env) (cs : List Cmd) : WF env (run env St.init cs) :=
+  wf_run env cs St.init (wf_init env)
+
+
+/-- **C05 (replay round trip), any well-formed state.** For every well-formed state — one binding per key,
     every value filed under its own key in the shape the verbs leave it, certificate names
     resolved (an invariant since `ReplaceCertificate` resolves them too) — replaying `generate_requests` on an empty state is accepted command by command
     and rebuilds the same configuration (up to empty buckets). -/
-theorem C05_replay_roundtrip_partial (env : Env) (s : St) (hs : WF env s) :
+theorem C05_replay_roundtrip_of_wf (env : Env) (s : St) (hs : WF env s) :
     Equiv (run env St.init (generateRequests s)) s ∧
     allOk env St.init (generateRequests s) = true := by
   have key : ∀ t, ∃ v', foldTO env t (none, true) (generateRequests s) = (v', true) ∧
@@ -428,6 +452,15 @@ theorem C05_replay_roundtrip_partial (env : Env) (s : St) (hs : WF env s) :
     intro t
     obtain ⟨v', h1, _⟩ := key t
     rw [look_init, h1]
+
+/-- **C05 (replay round trip), full statement.** For every configuration reachable from the empty
+    one by any command sequence (every verb, valid and invalid arguments, duplicates, removals,
+    patches), replaying `generate_requests` on an empty instance is accepted command by command
+    and yields the same configuration (up to empty per-cluster lists / certificate buckets). -/
+theorem C05_replay_roundtrip (env : Env) (cs : List Cmd) :
+    Equiv (run env St.init (generateRequests (run env St.init cs))) (run env St.init cs) ∧
+    allOk env St.init (generateRequests (run env St.init cs)) = true :=
+  C05_replay_roundtrip_of_wf env _ (C05_reachable_wellformed env cs)
 
 /-- **C05 (replay does not depend on map iteration order).** Two request lists that present to
     every map entry the same commands in the same order — any interleaving of the per-entry
